@@ -352,7 +352,7 @@ pub struct Content {
 #[derive(Clone, Copy, Debug, PartialEq)]
 pub struct AlphaPat {
     /// 0 random; 1 opaque; 2 zero stripes x; 3 zero stripes y; 4 random 35% zero; 5 zero border;
-    /// 6 all zero; 7 single zero pixel; 8 low alpha 0..3; 9 half zero / half opaque split
+    /// 6 all zero; 7 single zero pixel; 8 low alpha 0..3; 9 zero | opaque split; 10 opaque | zero split; 11 random runs
     pub kind: u8,
     pub seed: u64,
 }
